@@ -1,5 +1,5 @@
 (* C20 - Saving results is all-or-nothing under a crash.
-   Model: theories/Crash.v; proofs: theories/CrashProofs.v.
+   Model: theories/Crash.v; proofs: theories/CrashProofs.v, theories/CrashFrameProofs.v (public save(): frame theorem).
 
    ASSUMPTIONS built into the model's semantics (cr_step / cr_stop), i.e. the trusted base of these theorems:
      (A1) os.replace (rename(2)) within one directory is atomic: the target is the old file or the whole new one;
@@ -11,7 +11,7 @@
    Partial by design: these POSIX / CPython behaviours are modelled and validated by fault injection on every run
    (harness/props/c20.py), not verified. *)
 From Coq Require Import List NArith Bool Arith Lia.
-From ICG Require Import Store StoreProofs Crash CrashProofs.
+From ICG Require Import Store StoreProofs Crash CrashProofs CrashFrameProofs.
 Import ListNotations.
 
 (* Temp file + replace.  For every directory content, every payload, every way the runtime chunks the payload into
@@ -133,3 +133,153 @@ Example ex_session_inplace :
   let fs := cr_session cr_ex_encode cr_ex_decode cr_ex_policy 1 1 2 Cr_InPlace [] ex_reqs in
   cr_file fs 1 = Some [123; 1]%N /\ cr_load cr_ex_decode 1 fs = None.
 Proof. vm_compute. split; reflexivity. Qed.
+
+(* ================= the public entry point save(model_path, unique_name, output) ================= *)
+(* save() runs  save_data_plot ; save_json ; save_draw_coalitions.  The two plot savers are modelled as ARBITRARY
+   traces [pre] and [post] of foreign operations: any number of opens / writes / spills / flushes / closes / renames,
+   any content, handles left open across the json save or not - as long as no operation names the results file p or
+   its temporary q, nor uses the json saver's handle h.  [cr_foreign] constructor by constructor: *)
+Theorem foreign_spec :
+  forall (p q h : N) (o : cr_op),
+    cr_foreign p q [h] o = true <->
+    match o with
+    | Cr_OpenTrunc h' y | Cr_OpenTmp h' y => h' <> h /\ y <> p /\ y <> q
+    | Cr_Write h' _ | Cr_Spill h' _ | Cr_Flush h' | Cr_Close h' => h' <> h
+    | Cr_Replace a b => a <> p /\ a <> q /\ b <> p /\ b <> q
+    end.
+Proof. exact cr_foreign_spec. Qed.
+Print Assumptions foreign_spec.
+
+(* FRAME THEOREM.  Wherever the process stops - inside the first plot saver, inside the json saver, inside the second
+   plot saver, or after the end - and however (death, interrupt with the with-blocks of ALL open files unwinding,
+   interrupt losing part of every buffer), the results file is exactly the previous file (None = absent) or exactly
+   the complete new one.  The process starts with nothing open (cr_crash starts from cr_init fs0), so "h is not open
+   in fs0" holds by construction. *)
+Theorem public_save_all_or_nothing :
+  forall (h p q : N) (body : list cr_op) (payload : cr_bytes),
+    p <> q -> cr_body_ok h payload body = true ->
+    forall (fs0 : cr_fsmap) (pre post : list cr_op),
+      forallb (cr_foreign p q [h]) pre = true -> forallb (cr_foreign p q [h]) post = true ->
+      forall (k : nat) (m : cr_mode),
+        cr_crash_at m (pre ++ cr_save_atomic h p q body ++ post) k fs0 p = cr_file fs0 p \/
+        cr_crash_at m (pre ++ cr_save_atomic h p q body ++ post) k fs0 p = Some payload.
+Proof. exact cr_public_save_all_or_nothing. Qed.
+Print Assumptions public_save_all_or_nothing.
+
+(* sharper, and with the minimal hypothesis for this sequential shape: only the PATH clauses of cr_foreign are needed
+   (the plot savers may reuse any handle number); the file is the previous one up to and including the close of the
+   temp file and the payload from the rename on *)
+Theorem public_save_exact :
+  forall (h p q : N) (body : list cr_op) (payload : cr_bytes),
+    p <> q -> cr_body_ok h payload body = true ->
+    forall (fs0 : cr_fsmap) (pre post : list cr_op) (k : nat) (m : cr_mode),
+      forallb (cr_pathfree p q) pre = true -> forallb (cr_pathfree p q) post = true ->
+      cr_crash_at m (pre ++ cr_save_atomic h p q body ++ post) k fs0 p =
+      if k <=? length pre + length body + 2 then cr_file fs0 p else Some payload.
+Proof. exact cr_public_save_exact. Qed.
+Print Assumptions public_save_exact.
+
+(* no fault, or one after the last operation: the results file holds the payload *)
+Theorem public_save_completes :
+  forall (h p q : N) (body : list cr_op) (payload : cr_bytes),
+    p <> q -> cr_body_ok h payload body = true ->
+    forall (fs0 : cr_fsmap) (pre post : list cr_op),
+      forallb (cr_foreign p q [h]) pre = true -> forallb (cr_foreign p q [h]) post = true ->
+      forall (k : nat) (m : cr_mode),
+        length (pre ++ cr_save_atomic h p q body ++ post) <= k ->
+        cr_crash_at m (pre ++ cr_save_atomic h p q body ++ post) k fs0 p = Some payload.
+Proof. exact cr_public_save_completes. Qed.
+Print Assumptions public_save_completes.
+
+(* Stronger shape: the foreign operations may come ANYWHERE, also between the json saver's own operations (another
+   thread, a signal handler, savers run concurrently).  Hypothesis: the non-foreign operations of the trace are
+   exactly the json saver's, in order.  Here the handle clause of cr_foreign is what keeps the save intact. *)
+Theorem interleaved_save_all_or_nothing :
+  forall (h p q : N) (body : list cr_op) (payload : cr_bytes),
+    p <> q -> cr_body_ok h payload body = true ->
+    forall (fs0 : cr_fsmap) (tr : list cr_op),
+      filter (fun o => negb (cr_foreign p q [h] o)) tr = cr_save_atomic h p q body ->
+      forall (k : nat) (m : cr_mode),
+        cr_crash_at m tr k fs0 p = cr_file fs0 p \/ cr_crash_at m tr k fs0 p = Some payload.
+Proof. exact cr_interleaved_save_all_or_nothing. Qed.
+Print Assumptions interleaved_save_all_or_nothing.
+
+(* What the frame hypothesis excludes, and rightly so.  Seeded defect "a fresh model directory gets an empty results
+   file written in place before the savers run": [open p "w"; write "{}"; close] ++ the atomic save.  The pre-creation
+   names p (so it is not foreign) and a stop at k = 2 (file truncated, "{}" still buffered) leaves a ZERO-BYTE results
+   file in a directory that had none: neither the previous state nor the payload, and it does not parse. *)
+Theorem precreate_inplace_refuted :
+  exists fs0 h' h p q text body payload k m,
+    p <> q /\ cr_body_ok h payload body = true /\
+    k <= length (cr_precreate h' p text ++ cr_save_atomic h p q body) /\
+    cr_file fs0 p = None /\
+    cr_crash_at m (cr_precreate h' p text ++ cr_save_atomic h p q body) k fs0 p = Some [] /\
+    cr_crash_at m (cr_precreate h' p text ++ cr_save_atomic h p q body) k fs0 p <> cr_file fs0 p /\
+    cr_crash_at m (cr_precreate h' p text ++ cr_save_atomic h p q body) k fs0 p <> Some payload.
+Proof. exact cr_precreate_inplace_refuted. Qed.
+Print Assumptions precreate_inplace_refuted.
+
+(* generally: whatever follows a truncating open of p, a stop right after it leaves the empty file, in every mode;
+   and the pre-creation never satisfies the frame hypothesis *)
+Theorem precreate_truncates :
+  forall (fs0 : cr_fsmap) (h' p : N) (rest : list cr_op) (m : cr_mode),
+    cr_crash_at m (Cr_OpenTrunc h' p :: rest) 1 fs0 p = Some [].
+Proof. exact cr_precreate_truncates. Qed.
+Print Assumptions precreate_truncates.
+
+Theorem precreate_not_foreign :
+  forall (h' p q : N) (hs : list N) (text : cr_bytes), forallb (cr_foreign p q hs) (cr_precreate h' p text) = false.
+Proof. exact cr_precreate_not_foreign. Qed.
+Print Assumptions precreate_not_foreign.
+
+(* ---------- a concrete public save: the hypotheses hold, and what the files are ---------- *)
+(* results file 1 = {"a":1}, temp 2, json handle 1, payload {"a":1,"b":2} chunked as cr_ex_body.
+   pre  = open 10 (handle 5), write 4 bytes, spill 2 of them, LEAVE IT OPEN; write 12 through handle 6, close, rename 12 -> 11
+   post = 2 more bytes to handle 5, close it; reopen 11 truncating, write, flush, close.          20 operations. *)
+Example ex_public_hyps :
+  cr_ex_pre = [Cr_OpenTrunc 5 10; Cr_Write 5 [137; 80; 78; 71]; Cr_Spill 5 2;
+               Cr_OpenTmp 6 12; Cr_Write 6 [1; 2; 3]; Cr_Close 6; Cr_Replace 12 11]%N /\
+  cr_ex_post = [Cr_Write 5 [0; 0]; Cr_Close 5; Cr_OpenTrunc 6 11; Cr_Write 6 [4; 5]; Cr_Flush 6; Cr_Close 6]%N /\
+  cr_ex_public = cr_ex_pre ++ cr_save_atomic 1 1 2 cr_ex_body ++ cr_ex_post /\
+  forallb (cr_foreign 1 2 [1%N]) cr_ex_pre = true /\ forallb (cr_foreign 1 2 [1%N]) cr_ex_post = true /\
+  cr_body_ok 1 cr_ex_new cr_ex_body = true /\ length cr_ex_public = 20.
+Proof. vm_compute. repeat split; reflexivity. Qed.
+
+(* every crash point x three modes, computed: the results file is old up to k = 13 (close of the temp file) and new
+   from k = 14 (the rename) on - while the plot files DO pass through third states (file 10 holds a 2-byte prefix
+   after a death at k = 10; an interrupt at the same point flushes handle 5 into file 10, not into the results file) *)
+Example ex_public_all_points :
+  forallb (fun k => forallb (fun m =>
+      match cr_crash_at m cr_ex_public k cr_ex_fs 1 with
+      | Some c => cr_bytes_eqb c (if k <=? 13 then cr_ex_old else cr_ex_new)
+      | None => false
+      end) [Cr_Death; Cr_Interrupt; Cr_Partial 1]) (seq 0 22) = true
+  /\ cr_crash_at Cr_Interrupt cr_ex_public 3 cr_ex_fs 1 = Some cr_ex_old       (* inside the first plot saver *)
+  /\ cr_crash_at Cr_Interrupt cr_ex_public 10 cr_ex_fs 1 = Some cr_ex_old      (* inside the json saver *)
+  /\ cr_crash_at Cr_Death cr_ex_public 13 cr_ex_fs 1 = Some cr_ex_old          (* temp file closed, not yet renamed *)
+  /\ cr_crash_at Cr_Death cr_ex_public 14 cr_ex_fs 1 = Some cr_ex_new          (* renamed *)
+  /\ cr_crash_at (Cr_Partial 1) cr_ex_public 17 cr_ex_fs 1 = Some cr_ex_new    (* inside the second plot saver *)
+  /\ cr_crash_at Cr_Death cr_ex_public 10 cr_ex_fs 10 = Some [137; 80]%N
+  /\ cr_crash_at Cr_Interrupt cr_ex_public 10 cr_ex_fs 10 = Some [137; 80; 78; 71]%N
+  /\ cr_crash_at Cr_Death cr_ex_public 18 cr_ex_fs 11 = Some [].
+Proof. vm_compute. repeat split; reflexivity. Qed.
+
+(* an interleaved trace satisfying the hypothesis of interleaved_save_all_or_nothing: handle 5 writes file 10 and
+   renames it to 11 while the json saver is at work; all points x modes are old-or-new and both occur *)
+Example ex_interleaved :
+  filter (fun o => negb (cr_foreign 1 2 [1%N] o)) cr_ex_interleaved = cr_save_atomic 1 1 2 cr_ex_body
+  /\ forallb (fun k => forallb (fun m =>
+      match cr_crash_at m cr_ex_interleaved k cr_ex_fs 1 with
+      | Some c => cr_bytes_eqb c (if k <=? 12 then cr_ex_old else cr_ex_new)
+      | None => false
+      end) [Cr_Death; Cr_Interrupt; Cr_Partial 1]) (seq 0 (S (length cr_ex_interleaved))) = true
+  /\ cr_crash_at Cr_Interrupt cr_ex_interleaved 14 cr_ex_fs 11 = Some [137; 80; 78; 71; 0; 0]%N.
+Proof. vm_compute. repeat split; reflexivity. Qed.
+
+(* the seeded pre-creation on a fresh directory, all points: absent, then a zero-byte file (k = 1, 2), then "{}"
+   (k = 3 .. 9: parses, but is a third state byte-wise), then the payload *)
+Example ex_precreate_points :
+  map (fun k => cr_crash_at Cr_Death (cr_precreate 2 1 [123; 125]%N ++ cr_save_atomic 1 1 2 cr_ex_body) k [] 1) (seq 0 11) =
+  [None; Some []; Some []; Some [123; 125]%N; Some [123; 125]%N; Some [123; 125]%N; Some [123; 125]%N;
+   Some [123; 125]%N; Some [123; 125]%N; Some [123; 125]%N; Some cr_ex_new].
+Proof. vm_compute. reflexivity. Qed.
